@@ -2,7 +2,7 @@
 branching constructs on secret values (the API as documented), and with native Python control flow
 on the corresponding plain values — and reports both sets of final variable values.
 Protocol: `B|id|bitlength|<json program>`; see harness/props/c09.py for the program grammar."""
-import sys, os, json, traceback
+import sys, os, json, traceback, copy
 sys.path.insert(0, os.path.dirname(os.path.abspath(__file__)))
 import worker as W
 R = W.R; B = W.B
@@ -34,19 +34,23 @@ def expr_src(e, secret):
     if t in ("lt", "le", "eq", "ne", "gt", "ge"):
         op = {"lt": "<", "le": "<=", "eq": "==", "ne": "!=", "gt": ">", "ge": ">="}[t]
         return f"({expr_src(e[1], secret)} {op} {expr_src(e[2], secret)})"
-    # ---- typed values (boolean / fixed-point / list kinds; oracle only, not part of the Lean statement language)
+    # ---- typed values (boolean / fixed-point / list / list-of-lists kinds)
     if t == "fin":      # a secret fixed-point input
         return f"finp[{e[1]}]"
     if t == "not":
         return f"(~{expr_src(e[1], True)})" if secret else f"(not {expr_src(e[1], False)})"
     if t == "and":
         return f"({expr_src(e[1], True)} & {expr_src(e[2], True)})" if secret else f"({expr_src(e[1], False)} and {expr_src(e[2], False)})"
+    if t == "or":
+        return f"({expr_src(e[1], True)} | {expr_src(e[2], True)})" if secret else f"({expr_src(e[1], False)} or {expr_src(e[2], False)})"
     if t == "list":
         return "[" + ", ".join(expr_src(x, secret) for x in e[1]) + "]"
     if t == "item":
         return f"{expr_src(['var', e[1]], secret)}[{e[2]}]"
-    if t == "copy":     # native twin only: selection between lists returns a new list in the library
-        return expr_src(e[1], True) if secret else f"list({expr_src(e[1], False)})"
+    if t == "item2":
+        return f"{expr_src(['var', e[1]], secret)}[{e[2]}][{e[3]}]"
+    if t == "copy":     # native twin only: selection between lists returns a new (nested) list in the library
+        return expr_src(e[1], True) if secret else f"deepcopy({expr_src(e[1], False)})"
     raise ValueError(t)
 
 
@@ -79,14 +83,20 @@ def render(stmts, secret, ind, out, counter):
                 if els is not None:
                     out.append(f"{pad}else:")
                     render(els, False, ind + 1, out, counter); out.append(f"{pad}    pass")
+        elif t == "range":    # r = _range(bound, max=M): one range object, iterated by the loops that name it
+            if secret:
+                out.append(f"{pad}{s[1]} = _range({expr_src(s[2], True)}, max={s[3]}, ctx=_)")
+            else:
+                out.append(f"{pad}{s[1]} = range({expr_src(s[2], False)})")
         elif t == "for":
             lv, bound, mx, body = s[1], s[2], s[3], s[4]
+            shared = s[5] if len(s) > 5 else None
             if secret:
-                out.append(f"{pad}for {lv} in _range({expr_src(bound, True)}, max={mx}, ctx=_):")
+                out.append(f"{pad}for {lv} in {shared}:" if shared else f"{pad}for {lv} in _range({expr_src(bound, True)}, max={mx}, ctx=_):")
                 render(body, True, ind + 1, out, counter); out.append(f"{pad}    pass")
                 out.append(f"{pad}_endfor(ctx=_)")
             else:
-                out.append(f"{pad}for {lv} in range({expr_src(bound, False)}):")
+                out.append(f"{pad}for {lv} in {shared}:" if shared else f"{pad}for {lv} in range({expr_src(bound, False)}):")
                 render(body, False, ind + 1, out, counter); out.append(f"{pad}    pass")
         elif t == "while":
             cond, mx, body, brk = s[1], s[2], s[3], s[4]
@@ -113,6 +123,8 @@ def render(stmts, secret, ind, out, counter):
                 out.append(f"{pad}v[{s[1]!r}] = ({expr_src(s[3], False)}) if ({expr_src(s[2], False)}) else ({expr_src(s[4], False)})")
         elif t == "setitem":  # _.l[i] = e   (in-place update of a tracked list)
             out.append(f"{pad}{expr_src(['var', s[1]], secret)}[{s[2]}] = {expr_src(s[3], secret)}")
+        elif t == "setitem2":  # _.m[i][j] = e   (in-place update of a row of a tracked list of lists)
+            out.append(f"{pad}{expr_src(['var', s[1]], secret)}[{s[2]}][{s[3]}] = {expr_src(s[4], secret)}")
         elif t == "ref":      # r = _.l      (a reference to the list object, read after the program)
             out.append(f"{pad}refs[{s[1]!r}] = {expr_src(['var', s[2]], secret)}")
         elif t == "ite":      # _.x = if_then_else(cond, lambda: e1, lambda: e2)   (lazily evaluated branches)
@@ -122,6 +134,10 @@ def render(stmts, secret, ind, out, counter):
                 out.append(f"{pad}v[{s[1]!r}] = ({expr_src(s[3], False)}) if ({expr_src(s[2], False)}) else ({expr_src(s[4], False)})")
         else:
             raise ValueError(t)
+
+
+def priv_tree(x):
+    return [priv_tree(y) for y in x] if isinstance(x, list) else PrivVal(x)
 
 
 def pydiv(a, b):
@@ -171,6 +187,20 @@ def main():
         f = line.rstrip("\n").split("|", 3)
         try:
             prog = json.loads(f[3])
+            if prog == "LEN":
+                # fixed probe: a block that rebinds a tracked list to a list of another length
+                from pysnark.branching import BranchingValues as _BV, _if as __if, _endif as __endif
+                W.reset({"p": W.DEFAULT_P, "bl": int(f[2])})
+                res = {}
+                for c in (1, 0):
+                    _ = _BV()
+                    _.l = [PrivVal(1), PrivVal(2)]
+                    if __if(PrivVal(c) == 1, ctx=_):
+                        _.l = [PrivVal(7), PrivVal(8), PrivVal(9)]
+                    __endif(ctx=_)
+                    res["taken" if c else "not_taken"] = [x.value for x in _.l]
+                sys.stdout.write(f"{f[1]}|" + json.dumps(res) + "\n"); sys.stdout.flush()
+                continue
             RAW[0] = bool(prog.get("rawcond"))
             bl = int(f[2])
             p = W.DEFAULT_P
@@ -183,11 +213,11 @@ def main():
                 kd = kinds.get(k, "int")
                 if kd == "bool": return (PrivVal(val) == 1) if secret else bool(val == 1)
                 if kd == "fxp": return PrivValFxp(val / 4) if secret else val / 4
-                if kd == "list": return [PrivVal(x) for x in val] if secret else list(val)
+                if kd in ("list", "mat"): return priv_tree(val) if secret else copy.deepcopy(val)
                 return PrivVal(val) if secret else val
             v = {k: initval(k, val, False) for k, val in prog["init"].items()}; inp = list(prog["inputs"]); nrefs = {}
             try:
-                exec("\n".join(src_n) or "pass", {"v": v, "inp": inp, "finp": fin, "refs": nrefs, "pydiv": pydiv})
+                exec("\n".join(src_n) or "pass", {"v": v, "inp": inp, "finp": fin, "refs": nrefs, "pydiv": pydiv, "deepcopy": copy.deepcopy})
                 out["native"] = {"status": "ok", "vars": v if not prog.get("typed") else {}, "num": {k: num(x) for k, x in v.items()},
                                  "refs": {k: num(x) for k, x in nrefs.items()}}
             except Exception as e:
@@ -217,7 +247,7 @@ def main():
                                         if any((y.value - W.ev(y.lc, p)) % p != 0 for y in secrets(x))][:5],
                               "var_lcs": {k: kind_lc(x, p) for k, x in list(ctx.vals.items()) + [("ref:" + k, x) for k, x in srefs.items()]},
                               # canonical dump for the model-vs-code comparison (same text as Driver/ProtoBlock.lean prints)
-                              "canon_vars": ";".join(f"{k[1:]}={W.canon.val_str(x, p, W.CLASSES)}" for k, x in ctx.vals.items()) if not prog.get("typed") else "",
+                              "canon_vars": ";".join(f"{k[1:]}={W.canon.val_str(x, p, W.CLASSES)}" for k, x in ctx.vals.items()),
                               "canon_state": W.state_str(p)}
             except Exception as e:
                 out["api"] = {"status": type(e).__name__, "msg": str(e)[:120], "where": traceback.format_exc().splitlines()[-3].strip()[:120]}
